@@ -277,6 +277,170 @@ theorem get_empty_index (m : Mgr) (v : View) (extra : Pred)
   obtain ⟨res, hres⟩ := hg
   exact ⟨res, hres, by rw [get_rows hres]; rfl, get_columns hres⟩
 
+
+/-! ### Requests handed over as range OBJECTS (lesson 14)
+
+`event.index`, `pop.index[::-1]`, `index[:k][::-1]`, `index[::2]` are `pd.RangeIndex` objects. The read is by
+LABEL: the request stands for the labels of Python's `range(start, stop, step)` – in particular a descending
+range that reaches simulant 0 has a NEGATIVE `stop`, which is a bound on labels, never a position. -/
+
+/-- the labels of an ascending range object: `start + step·k` for `k = 0, 1, …` as long as they stay below `stop` -/
+theorem mem_rangeLabels_pos {s e d : Int} (hd : 0 < d) (x : Int) :
+    x ∈ rangeLabels s e d ↔ ∃ k : Nat, x = s + d * k ∧ x < e := by
+  unfold rangeLabels
+  rw [if_pos hd]
+  have hD : (d.toNat : Int) = d := Int.toNat_of_nonneg (by omega)
+  simp only [List.mem_map, List.mem_filter, List.mem_range, beq_iff_eq]
+  constructor
+  · rintro ⟨i, ⟨hi, hm⟩, rfl⟩
+    refine ⟨i / d.toNat, ?_, by omega⟩
+    have h1 : d.toNat * (i / d.toNat) = i := Nat.mul_div_cancel' (Nat.dvd_of_mod_eq_zero hm)
+    have h2 : ((d.toNat * (i / d.toNat) : Nat) : Int) = (i : Int) := by rw [h1]
+    rw [Int.natCast_mul, hD] at h2
+    rw [h2]
+  · rintro ⟨k, rfl, hlt⟩
+    have h2 : ((d.toNat * k : Nat) : Int) = d * k := by rw [Int.natCast_mul, hD]
+    refine ⟨d.toNat * k, ⟨?_, Nat.mul_mod_right _ _⟩, by rw [h2]⟩
+    generalize d * (k : Int) = y at h2 hlt
+    omega
+
+/-- the labels of a descending range object: `start - |step|·k` as long as they stay above `stop` -/
+theorem mem_rangeLabels_neg {s e d : Int} (hd : d < 0) (x : Int) :
+    x ∈ rangeLabels s e d ↔ ∃ k : Nat, x = s + d * k ∧ e < x := by
+  unfold rangeLabels
+  rw [if_neg (by omega), if_pos hd]
+  have hD : ((-d).toNat : Int) = -d := Int.toNat_of_nonneg (by omega)
+  simp only [List.mem_map, List.mem_filter, List.mem_range, beq_iff_eq]
+  constructor
+  · rintro ⟨i, ⟨hi, hm⟩, rfl⟩
+    refine ⟨i / (-d).toNat, ?_, by omega⟩
+    have h1 : (-d).toNat * (i / (-d).toNat) = i := Nat.mul_div_cancel' (Nat.dvd_of_mod_eq_zero hm)
+    have h2 : (((-d).toNat * (i / (-d).toNat) : Nat) : Int) = (i : Int) := by rw [h1]
+    rw [Int.natCast_mul, hD, Int.neg_mul] at h2
+    generalize d * ((i / (-d).toNat : Nat) : Int) = y at h2 ⊢
+    omega
+  · rintro ⟨k, rfl, hlt⟩
+    have h2 : (((-d).toNat * k : Nat) : Int) = -(d * k) := by rw [Int.natCast_mul, hD, Int.neg_mul]
+    refine ⟨(-d).toNat * k, ⟨?_, Nat.mul_mod_right _ _⟩, ?_⟩
+    · generalize d * (k : Int) = y at h2 hlt
+      omega
+    · rw [h2]; omega
+
+/-- an ascending range object lists its labels in increasing order … -/
+theorem rangeLabels_pos_sorted {s e d : Int} (hd : 0 < d) : (rangeLabels s e d).Pairwise (· < ·) := by
+  unfold rangeLabels
+  rw [if_pos hd, List.pairwise_map]
+  exact (List.pairwise_lt_range).filter _ |>.imp (by intro a b h; omega)
+
+/-- … a descending one in decreasing order (so a sorted list is determined by `mem_rangeLabels_*`) -/
+theorem rangeLabels_neg_sorted {s e d : Int} (hd : d < 0) : (rangeLabels s e d).Pairwise (· > ·) := by
+  unfold rangeLabels
+  rw [if_neg (by omega), if_pos hd, List.pairwise_map]
+  exact (List.pairwise_lt_range).filter _ |>.imp (by intro a b h; omega)
+
+/-- **`pop.index[::-1]`**: `RangeIndex(n-1, -1, -1)` stands for everybody, last simulant first, simulant 0 last -/
+theorem rangeLabels_reversed_everybody (n : Nat) :
+    rangeLabels ((n : Int) - 1) (-1) (-1) = (List.range n).reverse.map (fun (i : Nat) => (i : Int)) := by
+  unfold rangeLabels
+  rw [if_neg (by omega), if_pos (by omega)]
+  have h1 : ((n : Int) - 1 - -1).toNat = n := by omega
+  have h2 : (-(-1 : Int)).toNat = 1 := rfl
+  rw [h1, h2, List.filter_eq_self.mpr (by intro a _; simp [Nat.mod_one])]
+  apply List.ext_getElem
+  · simp
+  · intro i hi1 hi2
+    simp only [List.length_map, List.length_range] at hi1
+    simp only [List.getElem_map, List.getElem_range, List.getElem_reverse, List.length_range]
+    omega
+
+/-- **`index[:k][::-1]`, `index[::-d]` …: a descending range whose `start` is a multiple of `|step|` and whose
+`stop` is negative asks for simulant 0** -/
+theorem desc_range_reaches_zero {s e d : Int} (hd : d < 0) (he : e < 0)
+    (hdiv : ∃ k : Nat, s = -d * k) : (0 : Int) ∈ rangeLabels s e d := by
+  obtain ⟨k, hk⟩ := hdiv
+  rw [mem_rangeLabels_neg hd]
+  refine ⟨k, ?_, he⟩
+  rw [hk, Int.neg_mul]; omega
+
+theorem getReq_labels (m : Mgr) (v : View) (l : List Nat) (extra : Pred) :
+    getReq m v (.labels l) extra = get m v l extra := rfl
+
+/-- **A read through a range object is the read through its label list.** -/
+theorem getReq_range {m : Mgr} {v : View} {s e d : Int} {extra : Pred} (h : ∀ x ∈ rangeLabels s e d, 0 ≤ x) :
+    getReq m v (.range s e d) extra = get m v ((rangeLabels s e d).map Int.toNat) extra := by
+  unfold getReq Req.resolve
+  have : ((rangeLabels s e d).any fun x => decide (x < 0)) = false := by
+    simp only [List.any_eq_false, decide_eq_true_eq]
+    intro x hx; have := h x hx; omega
+  simp only [this, Bool.false_eq_true, if_false]
+
+/-- a range object that goes below simulant 0 asks for simulants that do not exist -/
+theorem getReq_range_negative {m : Mgr} {v : View} {s e d : Int} {extra : Pred} (h : ∃ x ∈ rangeLabels s e d, x < 0) :
+    getReq m v (.range s e d) extra = .error .unknownRow := by
+  unfold getReq Req.resolve
+  have : ((rangeLabels s e d).any fun x => decide (x < 0)) = true := by
+    obtain ⟨x, hx, hn⟩ := h
+    simp only [List.any_eq_true, decide_eq_true_eq]
+    exact ⟨x, hx, hn⟩
+  simp only [this, if_true]
+
+/-- **Rows of a read through a range object**: exactly the labels of `range(start, stop, step)` that pass the
+view's filter and the extra filter, in the order of the range (descending for a negative step) – every one of
+them, simulant 0 included, whatever the sign of `stop`. -/
+theorem getReq_range_rows {m : Mgr} {v : View} {s e d : Int} {extra : Pred} {res : Table}
+    (h : getReq m v (.range s e d) extra = .ok res) :
+    res.rows.map (fun (r : Nat) => (r : Int)) =
+      (rangeLabels s e d).filter (fun x => v.filter.eval m.table x.toNat && extra.eval m.table x.toNat) := by
+  have hnn : ∀ x ∈ rangeLabels s e d, 0 ≤ x := by
+    intro x hx
+    by_cases hneg : x < 0
+    · rw [getReq_range_negative ⟨x, hx, hneg⟩] at h; cases h
+    · omega
+  rw [getReq_range hnn] at h
+  rw [get_rows h, List.filter_map, List.map_map]
+  have : ∀ l : List Int, (∀ x ∈ l, 0 ≤ x) → l.map ((fun r : Nat => (r : Int)) ∘ Int.toNat) = l := by
+    intro l hl
+    calc l.map _ = l.map id := List.map_congr_left (fun x hx => by simp [Int.toNat_of_nonneg (hl x hx)])
+      _ = l := List.map_id _
+  rw [this _ (fun x hx => hnn x (List.mem_filter.mp hx).1)]
+  rfl
+
+/-- membership form: simulant `r` is returned iff the range asks for it and it passes both filters -/
+theorem getReq_range_spec {m : Mgr} {v : View} {s e d : Int} {extra : Pred} {res : Table}
+    (h : getReq m v (.range s e d) extra = .ok res) (r : Nat) :
+    r ∈ res.rows ↔ ((r : Int) ∈ rangeLabels s e d ∧ v.filter.eval m.table r = true ∧ extra.eval m.table r = true) := by
+  have hrows := getReq_range_rows h
+  have : r ∈ res.rows ↔ (r : Int) ∈ res.rows.map (fun (r : Nat) => (r : Int)) := by
+    simp only [List.mem_map]
+    constructor
+    · intro hr; exact ⟨r, hr, rfl⟩
+    · rintro ⟨a, ha, hab⟩
+      have : a = r := by omega
+      rw [← this]; exact ha
+  rw [this, hrows, List.mem_filter]
+  simp [Bool.and_eq_true]
+
+/-- **Reversing the request reverses the answer** (`index[::-1]` of any request) -/
+theorem get_reverse {m : Mgr} {v : View} {idx : List Nat} {extra : Pred} {res res' : Table}
+    (h : get m v idx extra = .ok res) (h' : get m v idx.reverse extra = .ok res') :
+    res'.rows = res.rows.reverse := by
+  rw [get_rows h, get_rows h', List.filter_reverse]
+
+/-- **`view.get(pop.index[::-1])`**: on a table of `n` simulants the request `RangeIndex(n-1, -1, -1)` is the read of
+everybody in reverse order -/
+theorem getReq_reversed_everybody (m : Mgr) (v : View) (n : Nat) (extra : Pred) :
+    getReq m v (.range ((n : Int) - 1) (-1) (-1)) extra = get m v (List.range n).reverse extra := by
+  have hnn : ∀ x ∈ rangeLabels ((n : Int) - 1) (-1) (-1), 0 ≤ x := by
+    rw [rangeLabels_reversed_everybody]
+    intro x hx
+    obtain ⟨i, _, rfl⟩ := List.mem_map.mp hx
+    omega
+  rw [getReq_range hnn, rangeLabels_reversed_everybody, List.map_map]
+  have : (List.range n).reverse.map (Int.toNat ∘ fun i : Nat => (i : Int)) = (List.range n).reverse := by
+    calc _ = (List.range n).reverse.map id := List.map_congr_left (fun x _ => by simp)
+      _ = _ := List.map_id _
+  rw [this]
+
 /-! ### Non-vacuity -/
 
 def exM : Mgr := { pop := some wTable }
@@ -289,5 +453,15 @@ example : (get exM (mkView ["a", "tracked"] .tt) [2, 1] .tt).map (·.rows) = .ok
 /-- a column that does not exist yet -/
 example : get exM (mkView ["a", "zz"] .tt) [0] .tt = .error .noColumn := by decide
 example : subview exM.table (mkView ["a", "tracked"] .tt) ["a"] = .ok ⟨["a"], trackedTrue⟩ := by decide
+/-- range objects: `index[::-1]`, `RangeIndex(18, -6, -6)` (18, 12, 6, 0), a range ending above 0 with stop -1, nobody -/
+example : rangeLabels 2 (-1) (-1) = [2, 1, 0] := by decide
+example : rangeLabels 18 (-6) (-6) = [18, 12, 6, 0] := by decide
+example : rangeLabels 5 (-1) (-2) = [5, 3, 1] := by decide
+example : rangeLabels 1 7 3 = [1, 4] := by decide
+example : rangeLabels 2 5 (-1) = [] := by decide
+/-- the whole table in reverse through a view that shows untracked simulants, and through one that does not -/
+example : (getReq exM (mkView ["a", "tracked"] .tt) (.range 2 (-1) (-1)) .tt).map (·.rows) = .ok [2, 1, 0] := by decide
+example : (getReq exM (mkView ["a"] .tt) (.range 2 (-1) (-1)) .tt).map (·.rows) = .ok [1, 0] := by decide
+example : getReq exM (mkView ["a"] .tt) (.range 1 (-3) (-1)) .tt = .error .unknownRow := by decide
 
 end Viv.Props.C12
